@@ -283,7 +283,7 @@ PROPS = {
                     "call/return intervals and lock-ordered wire events, must satisfy every observation-level formula of the trace specification (the concurrent history is "
                     "explainable by the sequential meaning of the API), must not panic or deadlock, and must leave nothing behind; data races without observable effect are "
                     "outside what a TLA+ specification can express and are reported by the Go race detector attached to the same runs"},
-    "C17": {"level": "model_checking", "runner": run_c17,
+    "C17": {"level": "model_checking", "runner": run_c17, "also": ["C02_RequestMD"],
             "quick": lambda s: gen.fam_meta(s, 96, gated=False) + gen.fam_data(s, 32) + gen.fam_ids(s, 16),
             "thorough": lambda s: gen.fam_meta(s, 600, gated=False) + gen.fam_data(s, 200) + gen.fam_ids(s, 100)},
     "C18": {"level": "model_checking", "runner": run_c18, "engine": "tlc-grpc-timeout",
